@@ -416,3 +416,138 @@ func retarget(ev *Event, key string, B *Val, ncond int) *Event {
 	}
 	return &c
 }
+
+// Sub-buffers over a block already taken.
+//
+// `hdr := bytes.NewBuffer(buf.Next(16))` followed by ordinary reads on hdr: the block is taken from the input in one
+// step (its availability is the business of the Next rules) and picked apart on a buffer of its own. When the reads on
+// the sub-buffer are successful reads of constant sizes that add up to exactly the block, nothing else uses the block,
+// and the sub-buffer is used for nothing else, the path is the same as reading those fields from the input directly:
+// transplantSubBuffer rewrites it so (the Next event goes, the reads move onto the input buffer). A path on which a
+// read on the sub-buffer fails although the block still holds enough bytes for it does not exist: reported as
+// infeasible (true).
+func (e *Engine) transplantSubBuffer(p *Path) (infeasible bool) {
+	if p.Trunc != "" {
+		return false
+	}
+	for i0, e0 := range p.Events {
+		if e0.Kind != EvReadBytes || e0.Mode != "Next" || e0.Failed || e0.Buf == nil || !isRootBuf(e0.Buf) {
+			continue
+		}
+		n, isC := affOf(e0.Size).IsConst()
+		if !isC || n <= 0 {
+			continue
+		}
+		isSub := func(b *Val) bool {
+			b = stripIface(b)
+			if b == nil || b.Op != "call" || b.Name != "bytes.NewBuffer" || len(b.Args) != 1 {
+				return false
+			}
+			v := stripCT(b.Args[0])
+			return v != nil && v.Op == "bufnext" && len(v.Args) == 3 && stripCT(v.Args[2]) != nil && stripCT(v.Args[2]).Op == "wire" && stripCT(v.Args[2]).ID == e0.ID
+		}
+		var reads []int
+		used, ok, dead := int64(0), true, false
+		subKey := ""
+		for i, ev := range p.Events {
+			if i <= i0 {
+				continue
+			}
+			nested := false
+			if len(ev.Iter) > 0 {
+				walkEvents(ev.Iter0Events(), func(x *Event, _ int) {
+					if x.Buf != nil && isSub(x.Buf) {
+						nested = true
+					}
+				})
+			}
+			if nested {
+				ok = false
+				break
+			}
+			if ev.Buf == nil || !isSub(ev.Buf) {
+				continue
+			}
+			if subKey == "" {
+				subKey = stripIface(ev.Buf).Key()
+			} else if stripIface(ev.Buf).Key() != subKey {
+				ok = false
+				break
+			}
+			switch ev.Kind {
+			case EvReadInt, EvReadBytes:
+				k, isK := affOf(ev.Size).IsConst()
+				if !isK || k < 0 || ev.Mode == "Next" {
+					ok = false
+				}
+				if ev.Failed {
+					if isK && used+k <= n {
+						dead = true // the block holds these bytes: the read cannot fail
+					}
+					ok = false
+				}
+				used += k
+				reads = append(reads, i)
+			case EvLen, EvBytes:
+				ok = false
+			default:
+				ok = false
+			}
+			if !ok {
+				break
+			}
+		}
+		if dead {
+			return true
+		}
+		if !ok || len(reads) == 0 || used != n {
+			continue
+		}
+		// the block itself is used for nothing else
+		isRead := map[int]bool{}
+		for _, i := range reads {
+			isRead[i] = true
+		}
+		other := false
+		uses := func(v *Val) bool {
+			return v != nil && v.Contains(func(x *Val) bool { return x.Op == "wire" && x.ID == e0.ID })
+		}
+		walkEvents(p.Events, func(x *Event, _ int) {
+			if x == e0 {
+				return
+			}
+			if uses(x.Src) || uses(x.Dst) || uses(x.Size) || uses(x.Count) || uses(x.Recv) {
+				other = true
+			}
+			for _, a := range x.Args {
+				if uses(a) {
+					other = true
+				}
+			}
+		})
+		for _, r := range p.Ret {
+			if uses(r) {
+				other = true
+			}
+		}
+		if other {
+			continue
+		}
+		var out []*Event
+		for i, ev := range p.Events {
+			if i == i0 {
+				continue
+			}
+			if isRead[i] {
+				c := *ev
+				c.Buf = e0.Buf
+				out = append(out, &c)
+				continue
+			}
+			out = append(out, ev)
+		}
+		p.Events = out
+		return e.transplantSubBuffer(p) // (another block further on)
+	}
+	return false
+}
